@@ -17,15 +17,17 @@ RULE = ("live SHADE / SHAGA / jDE runs in log mode (pop 4-12 so the memory wraps
 ASSUMPTIONS = ["real-valued primitives are modelled by the value they returned (after loc + scale*x, computed in the harness "
                "with the same float operations as the code)", "fitness finite", "means compared within 2^-30 relative"]
 TRUSTED = ["models: coq/theories/Adapt.v; checkers C15Check.v; mirror log mode",
-           "code translator harness/translate_code.py + coq/theories/Py.v: randc01 / randn01 proved equal to the definitions generated from optimizers/_shade.py (theories/CodeEqC15.v); lehmer_mean, SHADE._update_u_F/_update_u_CR/_generate_F_CR, SHAGA._update_u/_randc/_randn/_generate_MR_CR, jDE._get_mutate_F/_get_mutate_CR translated as methods (self reads = parameters, self stores rejected) and proved equal to Adapt.v (theories/CodeEqAdapt.v)"]
+           "code translator harness/translate_code.py + coq/theories/Py.v: randc01 / randn01 proved equal to the definitions generated from optimizers/_shade.py (theories/CodeEqC15.v); lehmer_mean, SHADE._update_u_F/_update_u_CR/_generate_F_CR, SHAGA._update_u/_randc/_randn/_generate_MR_CR, jDE._get_mutate_F/_get_mutate_CR translated as methods (self reads = parameters, self stores rejected) and proved equal to Adapt.v (theories/CodeEqAdapt.v); SHADE/jDE/SHAGA._get_new_population translated by harness/translate_loop.py as functions on (base record, own state) with the random parts as oracles, memory write / archive / accept-only proved (theories/CodeEqAdaptStep.v)"]
 THEORIES = ["Base", "RandomPrims", "RandomPrimsProofs", "RandomPrimsProofs2", "Adapt", "AdaptProofs", "C11Check", "C07Check", "C15Check",
-            "Py", "PyLemmas", "GenCode", "CodeEqC11", "CodeEqC06", "CodeEqC07", "CodeEqC15", "CodeEqAdapt", "BinaryOps", "BinaryOpsProofs", "DEOps", "DEOpsProofs"]
+            "Py", "PyLemmas", "GenCode", "CodeEqC11", "CodeEqC06", "CodeEqC07", "CodeEqC15", "CodeEqAdapt", "EALoop", "EALoopProofs", "EALoopProofs2", "GenLoop", "CodeEqLoop", "CodeEqStep", "CodeEqGreedy", "CodeEqAdaptStep", "BinaryOps", "BinaryOpsProofs", "DEOps", "DEOpsProofs"]
 IMPORTS = "From TF Require Import Base RandomPrims Adapt C11Check C07Check C15Check."
 
 
 def gen(ctx):
     import translate_code as TC
-    TC.ensure(TC.C07_FUNCS + ["randc01", "randn01", "randint", "uniform"] + TC.C15_METHODS)
+    TC.ensure(TC.C07_FUNCS + ["randc01", "randn01", "randint", "uniform", "find_pbest_id"] + TC.C15_METHODS)
+    import translate_loop as TL
+    TL.emit(need=["TheFittest", "EvolutionaryAlgorithm", "DifferentialEvolution", "SHADE", "jDE", "SHAGA"])
 
 
 
